@@ -131,4 +131,18 @@ REFACTORS = [
     # S39: Fetcher::success_counts as a for loop
     ("s39", R + "node/sync/announce.rs", "    fn synced(self) -> Self {\n        Self {\n            synced: self.synced + 1,\n            ..self\n        }\n    }",
      "    fn synced(mut self) -> Self {\n        self.synced += 1;\n        self\n    }", 1),
+    # S40: the retain of Service::disconnected extracted into a helper, called at the same place
+    ("s40", N + "service.rs", "        self.fetching.retain(|_, fetching| {\n            if fetching.from != remote {\n                return true;\n            }\n            // Remove and fail any pending fetches from this remote node.\n            for resp in &fetching.subscribers {\n                resp.send(FetchResult::Failed {\n                    reason: format!(\"disconnected: {reason}\"),\n                })\n                .ok();\n            }\n            false\n        });\n",
+     "        Self::fail_fetches(&mut self.fetching, &remote, reason);\n", 1),
+    ("s40", N + "service.rs", "    pub fn received_message(&mut self, remote: NodeId, message: Message) {",
+     "    /// Remove and fail any pending fetches from the given remote node.\n    fn fail_fetches(fetching: &mut HashMap<RepoId, FetchState>, remote: &NodeId, reason: &DisconnectReason) {\n        fetching.retain(|_, fetching| {\n            if fetching.from != *remote {\n                return true;\n            }\n            for resp in &fetching.subscribers {\n                resp.send(FetchResult::Failed {\n                    reason: format!(\"disconnected: {reason}\"),\n                })\n                .ok();\n            }\n            false\n        });\n    }\n\n    pub fn received_message(&mut self, remote: NodeId, message: Message) {", 1),
+    # S41: Refs::canonical writing through fmt::Write
+    ("s41", R + "storage/refs.rs", "            buf.push_str(&oid.to_string());\n            buf.push(' ');\n            buf.push_str(name);\n            buf.push('\\n');",
+     "            let line = format!(\"{oid} {name}\\n\");\n            buf.push_str(&line);", 1),
+    # S42: Address decoder binding the octets through a helper variable and an explicit From
+    ("s42", N + "wire/message.rs", "                let ip = net::Ipv6Addr::from(octets);\n\n                HostName::Ip(net::IpAddr::V6(ip))",
+     "                let ip: net::Ipv6Addr = octets.into();\n                let ip = net::IpAddr::V6(ip);\n\n                HostName::Ip(ip)", 1),
+    # S43: address book reader with match instead of let-else
+    ("s43", R + "node/address/store.rs", "            // Nb. See `addresses_of`: skip stored addresses that don't parse back.\n            let Ok(addr) = row.try_read::<Address, _>(\"value\") else {\n                continue;\n            };",
+     "            let addr = match row.try_read::<Address, _>(\"value\") {\n                Ok(addr) => addr,\n                Err(_) => continue,\n            };", 1),
 ]
